@@ -77,13 +77,19 @@ def check(model, rep, tier):
           fields.add(t.attr)
 
   # ---------------------------------------------------------------- OPT-FIELDS
+  def xrets(fn):
+    """returned expressions of fn with local names replaced by their definitions."""
+    out = []
+    for r in ast.walk(fn.node):
+      if isinstance(r, ast.Return) and r.value is not None:
+        out.append(tpl.expand(fn, r.value, r))
+    return out
+
   def tuple_fields(fn, depth=0):
     """fields an expression-valued method's result depends on (self.X, via as_tuple)."""
     out = set()
-    other = set()
-    for r in ast.walk(fn.node):
-      if isinstance(r, ast.Return) and r.value is not None:
-        out |= expr_fields(r.value, 'self')
+    for v in xrets(fn):
+      out |= expr_fields(v, 'self')
     return out
 
   def expr_fields(e, who):
@@ -124,11 +130,9 @@ def check(model, rep, tier):
   # every field enters the compared value as itself (a frozenset compares by
   # content; a tuple built from it compares by iteration order)
   src_fn = as_tuple or eq
-  par = {b: a for a in ast.walk(src_fn.node) for b in ast.iter_child_nodes(a)}
   bad_wrap = []
-  for r in ast.walk(src_fn.node):
-    if not (isinstance(r, ast.Return) and r.value is not None):
-      continue
+  for r in (ast.Expr(value=v) for v in xrets(src_fn)):
+    par = {b: a for a in ast.walk(r) for b in ast.iter_child_nodes(a)}
     for n in ast.walk(r.value):
       if isinstance(n, ast.Attribute) and isinstance(n.value, ast.Name) and \
           n.value.id == 'self' and n.attr in fields:
@@ -176,8 +180,7 @@ def check(model, rep, tier):
 
   # ---------------------------------------------------------------- OPT-EQHASH
   other = [a for a in eq.params()][0] if eq.params() else 'other'
-  cmps = [n for r in ast.walk(eq.node) if isinstance(r, ast.Return) and r.value
-          is not None for n in ast.walk(r.value) if isinstance(n, ast.Compare)]
+  cmps = [n for v in xrets(eq) for n in ast.walk(v) if isinstance(n, ast.Compare)]
   eq_self = set()
   eq_other = set()
   well = bool(cmps)
@@ -195,10 +198,9 @@ def check(model, rep, tier):
             witness='two option values differing only in an uncompared field '
             'alias in the conversion cache')
   hrets = [r for r in ast.walk(hsh.node) if isinstance(r, ast.Return)]
-  hok = bool(hrets)
+  hok = bool(hrets) and all(r.value is not None for r in hrets)
   hfields = set()
-  for r in hrets:
-    v = r.value
+  for v in xrets(hsh):
     if not (isinstance(v, ast.Call) and isinstance(v.func, ast.Name) and
             v.func.id == 'hash' and len(v.args) == 1):
       hok = False
